@@ -332,4 +332,118 @@ Section Correct.
       + left. destruct (runs_err _ _ _ _ H) as [k Hk]. exists k. intros j. destruct (Hk j) as (e' & -> & He). eauto.
       + right. destruct (runs_err _ _ _ _ H) as [k Hk]. exists k. intros j. destruct (Hk j) as (e' & -> & He). eauto.
   Qed.
+
+  (** ** C23 in the frame of a function body, callees at any depth *)
+  Section Untaken.
+    Variable n : nat.
+    Variables (cs : list N) (outer : scope_t) (base : list Value) (qi : list (Fact * list query_item)) (has_sp : bool).
+    Notation callf := (Lang.call_fun lio p is_debug n).
+    Notation callfin := (Lang.call_fin lio p is_debug n).
+    Notation ev_expr := (Lang.eval_expr lio p is_debug callf callfin (@no_recall St) ER_Normal).
+    Notation ev_stmts := (Lang.eval_stmts lio p is_debug callf callfin (@no_recall St) ER_Normal).
+    Notation ev_earms := (Lang.eval_earms lio p is_debug callf callfin (@no_recall St) ER_Normal).
+    Notation ev_sarms := (Lang.eval_sarms lio p is_debug callf callfin (@no_recall St) ER_Normal).
+    Notation ev_branches := (Lang.eval_branches lio p is_debug callf callfin (@no_recall St) ER_Normal).
+    Notation dx := (CompileDirect.d_expr p is_debug la "" false).
+    Notation ds := (CompileDirect.d_stmt p is_debug la "" false).
+    Notation db := (CompileDirect.d_branches p is_debug la "" false).
+    Notation sz := (CompileDirect.sz_expr p is_debug).
+    Notation szs := (CompileDirect.sz_stmts p is_debug).
+    Notation szb := (CompileDirect.sz_branches p is_debug).
+    Notation stf := (st cs outer base qi).
+    Notation Qxf := (Qx cs has_sp).
+    Notation simo := (sim_out dbg lio p m cs outer base qi has_sp).
+
+    Lemma frame_sim :
+      (forall e, fr_expr e = true -> P_expr dbg lio p is_debug m la "" false callf callfin (@no_recall St) ER_Normal cs outer base qi has_sp e)
+      /\ (forall ss, fr_stmts ss = true -> P_stmts dbg lio p is_debug m la "" false callf callfin (@no_recall St) ER_Normal cs outer base qi has_sp ss)
+      /\ (forall a, fr_earms a = true -> P_earms dbg lio p is_debug m la "" false callf callfin (@no_recall St) ER_Normal cs outer base qi has_sp a)
+      /\ (forall a, fr_sarms a = true -> P_sarms dbg lio p is_debug m la "" false callf callfin (@no_recall St) ER_Normal cs outer base qi has_sp a)
+      /\ (forall b, fr_branches b = true -> P_branches dbg lio p is_debug m la "" false callf callfin (@no_recall St) ER_Normal cs outer base qi has_sp b).
+    Proof.
+      destruct (callee_specs n) as [IHf IHn].
+      destruct (sim_all dbg lio p is_debug m Hcm Hlen Hglob Hsd la "" false callf callfin (@no_recall St) ER_Normal
+                        cs outer base qi has_sp eq_refl IHf IHn (no_recall_spec "")) as (H1 & _ & _ & _ & H5 & _ & _ & H8 & H9 & H10).
+      auto.
+    Qed.
+
+    Definition untaken_frame_stmt : Prop :=
+      (* a && b, a false *)
+      (forall a b en sg pc w w1, fr_expr a = true ->
+         at_pc m pc (dx pc (EAnd a b)) -> ev_expr en w a = OVal (V_Bool false) w1 ->
+         let mid := pc + sz a + 3 in
+         mruno (Qxf pc (pc + sz (EAnd a b)) mid (mid + sz b)) (stf en sg pc w)
+               (MTo (stf en (V_Bool false :: sg) (pc + sz (EAnd a b)) w1)))
+      (* a || b, a true *)
+      /\ (forall a b en sg pc w w1, fr_expr a = true ->
+         at_pc m pc (dx pc (EOr a b)) -> ev_expr en w a = OVal (V_Bool true) w1 ->
+         let pb := pc + sz a + 1 in
+         mruno (Qxf pc (pc + sz (EOr a b)) pb (pb + sz b)) (stf en sg pc w)
+               (MTo (stf en (V_Bool true :: sg) (pc + sz (EOr a b)) w1)))
+      (* a or b, a some x *)
+      /\ (forall a b en sg pc w w1 x, fr_expr a = true ->
+         at_pc m pc (dx pc (ECoalesce a b)) -> ev_expr en w a = OVal (V_Option (Some x)) w1 ->
+         let pb := pc + sz a + 4 in
+         mruno (Qxf pc (pc + sz (ECoalesce a b)) pb (pb + sz b)) (stf en sg pc w)
+               (MTo (stf en (x :: sg) (pc + sz (ECoalesce a b)) w1)))
+      (* if c { t } else { f }, both ways *)
+      /\ (forall c t f en sg pc w w1, fr_expr c = true -> fr_expr t = true ->
+         at_pc m pc (dx pc (EIf c t f)) -> ev_expr en w c = OVal (V_Bool true) w1 ->
+         let pf := pc + sz c + 1 in
+         simo (Qxf pc (pc + sz (EIf c t f)) pf (pf + sz f)) (stf en sg pc w) (ev_expr en w1 t)
+              (fun v w' => stf en (v :: sg) (pc + sz (EIf c t f)) w'))
+      /\ (forall c t f en sg pc w w1, fr_expr c = true -> fr_expr f = true ->
+         at_pc m pc (dx pc (EIf c t f)) -> ev_expr en w c = OVal (V_Bool false) w1 ->
+         let pt := pc + sz c + 1 + sz f + 1 in
+         simo (Qxf pc (pc + sz (EIf c t f)) pt (pt + sz t)) (stf en sg pc w) (ev_expr en w1 f)
+              (fun v w' => stf en (v :: sg) (pc + sz (EIf c t f)) w'))
+      (* match expression and statement: every arm but the selected one *)
+      /\ (forall e arms en sg pc w v w1 k j, fr_expr e = true -> fr_earms arms = true ->
+         at_pc m pc (dx pc (EMatch e arms)) -> ev_expr en w e = OVal v w1 ->
+         first_match p (earms_patterns arms) v = Some (Some k) ->
+         j <> k -> (j < List.length (earms_patterns arms))%nat ->
+         let base_pc := pc + sz e + len (d_patterns p (earms_patterns arms) []) in
+         let xlo := nth j (earm_addrs p is_debug arms base_pc) 0 in
+         simo (Qxf pc (pc + sz (EMatch e arms)) xlo (xlo + nth j (earm_sizes p is_debug arms) 0)) (stf en sg pc w)
+              (ev_earms en w1 v arms) (fun r w' => stf en (r :: sg) (pc + sz (EMatch e arms)) w'))
+      /\ (forall e arms en sg pc w v w1 k j, fr_expr e = true -> fr_sarms arms = true ->
+         at_pc m pc (ds pc (SMatch e arms)) -> ev_expr en w e = OVal v w1 ->
+         first_match p (sarms_patterns arms) v = Some (Some k) ->
+         j <> k -> (j < List.length (sarms_patterns arms))%nat ->
+         let base_pc := pc + sz e + len (d_patterns p (sarms_patterns arms) []) in
+         let xlo := nth j (sarm_addrs p is_debug arms base_pc) 0 in
+         simo (Qxf pc (pc + CompileDirect.sz_stmt p is_debug (SMatch e arms)) xlo (xlo + nth j (sarm_sizes p is_debug arms) 0))
+              (stf en sg pc w) (ev_sarms en w1 v arms)
+              (fun en' w' => stf en' sg (pc + CompileDirect.sz_stmt p is_debug (SMatch e arms)) w'))
+      (* if statements: the first branch, both ways *)
+      /\ (forall c ss bs en sg pc endl w w1, fr_expr c = true -> fr_stmts ss = true ->
+         at_pc m pc (db pc endl (BCons c ss bs)) -> ev_expr en w c = OVal (V_Bool true) w1 ->
+         let next := pc + sz c + 2 + 1 + szs ss + 1 + 1 in
+         simo (Qxf pc (pc + szb (BCons c ss bs)) next (next + szb bs)) (stf en sg pc w)
+              (ev_stmts (env_push en) w1 ss) (fun _ w' => stf en sg endl w'))
+      /\ (forall c ss bs en sg pc endl w w1, fr_expr c = true -> fr_branches bs = true ->
+         at_pc m pc (db pc endl (BCons c ss bs)) -> ev_expr en w c = OVal (V_Bool false) w1 ->
+         let pb := pc + sz c + 2 in
+         simo (Qxf pc (pc + szb (BCons c ss bs)) pb (pb + 1 + szs ss + 1 + 1)) (stf en sg pc w)
+              (ev_branches en w1 bs)
+              (fun r w' => match r with
+                           | Some _ => stf en sg endl w'
+                           | None => stf en sg (pc + szb (BCons c ss bs)) w'
+                           end)).
+
+    Lemma untaken_frame_proof : untaken_frame_stmt.
+    Proof.
+      destruct frame_sim as (He & Hss & Hea & Hsa & Hbr).
+      repeat split; intros.
+      - eapply and_untaken; eauto.
+      - eapply or_untaken; eauto.
+      - eapply coalesce_untaken; eauto.
+      - eapply if_true_untaken; eauto.
+      - eapply if_false_untaken; eauto.
+      - eapply match_arm_untaken; eauto.
+      - eapply match_stmt_arm_untaken; eauto.
+      - eapply if_stmt_true_untaken; eauto.
+      - eapply if_stmt_false_untaken; eauto.
+    Qed.
+  End Untaken.
 End Correct.
